@@ -103,7 +103,7 @@ Proof.
     destruct (revoke_refresh_tables (st s) (r_id r)) as [_ [_ [_ [_ Tp']]]]. now rewrite Tp, Tp'.
   - left. match goal with |- context [push cfg s ?x1 ?x2 ?x3 ?x4] => destruct (push_tables cfg s x1 x2 x3 x4) as [_ [_ [_ [_ [Hp _]]]]] end.
     now rewrite Hp.
-  - left. unfold authorize_par.
+  - left. rewrite ?authorize_par_fst; unfold authorize_par0.
     destruct (key_of s uri) as [k0|]; [|reflexivity].
     destruct (par (st s) k0) as [pr|]; [|reflexivity].
     repeat match goal with |- context [if ?c then fail _ _ else _] => destruct c; [reflexivity|] end.
